@@ -627,6 +627,10 @@ for cv in ['bn254','bls12-377','bls12-381','bls24-315','bls24-317','bw6-633','bw
 		}
 		cycle[wire] = int64(i)''')])
 save('benign-permcycle-locals','C02','backend/plonk/bn254/setup.go','buildPermutation with range loop and named temporaries (all seven curves)')
+m('globalref-registry','C10',['EFF-GLOBALREF'],'constraint/solver/hint_registry.go','''	return maps.Clone(registry)''','''	if len(registry) < 64 {
+		return maps.Clone(registry)
+	}
+	return registry // large registries are shared''',note='the solver configuration receives the global hint registry itself instead of a copy once it is large')
 json.dump({'comment':'selftest mutants: each patch breaks one rule instance and must be detected by the listed rule(s) of its property; produced by tools/make_selftest.py','mutants':M}, open(os.path.join(root,'selftest','mutants.json'),'w'), indent=1)
 subprocess.run(['git','-C','/repo','worktree','remove','--force',WT],capture_output=True)
 print(len(M),'mutants')
